@@ -31,6 +31,15 @@ def _kwargs(P):
                                % (n1, n1, n2, n2)),
                               ('fresh-result', 'result is not %s_kwargs and result is not %s_kwargs' % (n1, n2))],
                      cross_check=False)
+    # the species' own block wins over a shared condition wherever the two appear in the call
+    for first in ('block', 'shared'):
+        blocks = {'O_kwargs': DictOf({'P': Real(11., 20.)}), 'CO_kwargs': DictOf({'P': Real(21., 30.)})}
+        shared = {'T': _T, 'P': Real(0.1, 10.)}
+        args = {'specie_name': Const('O')}
+        args.update(blocks if first == 'block' else shared)
+        args.update(shared if first == 'block' else blocks)
+        contract(PM + '_get_specie_kwargs', P, label='helper:own-block-wins,%s-listed-first' % first, args=args,
+                 ensures=[('own-block-overrides-the-shared-condition', "result == {'T': T, 'P': O_kwargs['P']}")], cross_check=False)
     contract(PM + '_get_specie_kwargs', P, label='helper:no-own-block',
              args={'specie_name': Const('N2'), 'T': _T, 'O_kwargs': DictOf({'x': _X})},
              ensures=[('general-conditions-only', "result == {'T': T}")], cross_check=False)
@@ -60,7 +69,8 @@ def _formula(P):
     # ---- composition strings -------------------------------------------------------------------------------------
     cases = (('CH3CH2OH', {'C': 2, 'H': 6, 'O': 1}), ('C10H22', {'C': 10, 'H': 22}), ('C4H10', {'C': 4, 'H': 10}),
              ('Uuo2O3', {'Uuo': 2, 'O': 3}), ('NaCl', {'Na': 1, 'Cl': 1}), ('PtO2', {'Pt': 1, 'O': 2}),
-             ('C120H2', {'C': 120, 'H': 2}))
+             ('C120H2', {'C': 120, 'H': 2}), ('NaAlSi3O8', {'Na': 1, 'Al': 1, 'Si': 3, 'O': 8}),
+             ('ZrTiPbO3H2C', {'Zr': 1, 'Ti': 1, 'Pb': 1, 'O': 3, 'H': 2, 'C': 1}))
     for f, comp in cases:
         contract(PM + 'parse_formula', P, label='helper:' + f, args=dict(formula=Const(f)),
                  ensures=[('composition', 'result == %r' % comp)], cross_check=False)
@@ -71,11 +81,12 @@ def _formula(P):
           prove=[('same-composition-after-editing-an-earlier-result',
                   "spec.util.call_edit_call(pm.parse_formula, 'C10H22', 'H') == {'C': 10, 'H': 22}"),
                  ('two-results-are-distinct-objects', "pm.parse_formula('H2O') is not pm.parse_formula('H2O')")])
-    contract(PM + 'get_molecular_weight', P, label='helper:dict',
-             args=dict(elements=DictOf({'C': Real(0., 10.), 'H': Real(0., 20.), 'Pt': Real(0., 3.)})),
-             ensures=[('sum-of-atomic-weights', "result == const.atomic_weight['C'] * elements['C'] + const.atomic_weight['H']"
-                       " * elements['H'] + const.atomic_weight['Pt'] * elements['Pt']"),
-                      ('frame:composition-unmodified', 'elements == old(elements)')])
+    for lab, els in (('3-elements', ['C', 'H', 'Pt']), ('6-elements-in-no-particular-order', ['Si', 'Na', 'O', 'Al', 'H', 'C']),
+                     ('9-elements', ['Zr', 'Ti', 'Pb', 'O', 'H', 'C', 'N', 'S', 'Ar'])):
+        contract(PM + 'get_molecular_weight', P, label='helper:dict,' + lab,
+                 args=dict(elements=DictOf({e: Real(0., 20.) for e in els})),
+                 ensures=[('sum-of-atomic-weights', 'result == ' + ' + '.join('const.atomic_weight[%r] * elements[%r]' % (e, e) for e in els)),
+                          ('frame:composition-unmodified', 'elements == old(elements)')])
 
 
 def _per_mass(P):
@@ -162,7 +173,11 @@ def _references(P):
 def _reaction_parser(P):
     # ---- reaction strings: repeated species accumulate, coefficients may be omitted ------------------------------------
     for text, delim, expect in (('CH3 + CH3', '+', (['CH3'], [2.])), ('H + H + M', '+', (['H', 'M'], [2., 1.])),
-                                ('2A + B + 0.5A', '+', (['A', 'B'], [2.5, 1.])), ('A>>3B>>B', '>>', (['A', 'B'], [1., 4.]))):
+                                ('2A + B + 0.5A', '+', (['A', 'B'], [2.5, 1.])), ('A>>3B>>B', '>>', (['A', 'B'], [1., 4.])),
+                                ('H2 + H2 + O2 + O2', '+', (['H2', 'O2'], [2., 2.])),
+                                ('H2 + H2 + O2 + CH4 + O2', '+', (['H2', 'O2', 'CH4'], [2., 2., 1.])),
+                                ('A + B + A + C + B + D + C + A', '+', (['A', 'B', 'C', 'D'], [3., 2., 2., 1.])),
+                                ('20CO2 + 100H2 + 3N2', '+', (['CO2', 'H2', 'N2'], [20., 100., 3.]))):
         contract('pmutt.reaction:_parse_reaction_state', P, label='helper:%s' % text,
                  args=dict(reaction_str=Const(text), species_delimiter=Const(delim)),
                  ensures=[('species-once-with-summed-coefficients', 'result == %r' % (expect,))], cross_check=False)
